@@ -135,7 +135,9 @@ func c15ScribbleAll(l *client.Line) {
 
 // modes (field 5): "" = free running (plus a late background handler);
 // "lonefg": the foreground set has exactly ONE handler, which scribbles over everything right after
-//           recording and then closes a channel; the background handlers record only after that;
+//
+//	recording and then closes a channel; the background handlers record only after that;
+//
 // "lonebg": the same with the roles of the sets exchanged (no late handler in the lone modes).
 // field 6 = "1": the case runs with GOMAXPROCS(1), so that goroutines started by the dispatchers
 // only get to evaluate line.Copy() after the code that started them has blocked or finished.
@@ -161,10 +163,12 @@ func c15Exec(in Fields) Fields {
 	scribbled := make(chan struct{}) // closed by the lone handler when it has finished scribbling
 	loneIdx := -1
 	switch mode {
-	case "lonefg":
+	case "lonefg", "first": // "first": any set sizes; handler 0 scribbles (and ADDS tags), all others look afterwards
 		loneIdx = 0
 	case "lonebg":
 		loneIdx = nfg
+	case "laterbg", "laterfg":
+		return c15ExecLater(in)
 	}
 	snaps := make([]c15Snap, total)
 	var mu sync.Mutex
@@ -252,30 +256,173 @@ func c15Exec(in Fields) Fields {
 		} else if idx < nfg+nbg {
 			who = fmt.Sprintf("b%d", idx-nfg)
 		}
-		if !s.ok {
-			obs = append(obs, F(who, "MISSING")...)
-			continue
-		}
-		obs = append(obs, F(who, s.scal[0], s.scal[1], s.scal[2], s.scal[3], s.scal[4], s.scal[5], len(s.args), s.args)...)
-		if s.nil_ {
-			obs = append(obs, F("nil")...)
-		} else {
-			keys := make([]string, 0, len(s.tags))
-			for k := range s.tags {
-				keys = append(keys, k)
-			}
-			sort.Strings(keys)
-			obs = append(obs, F(len(keys))...)
-			for _, k := range keys {
-				obs = append(obs, F(k, s.tags[k])...)
-			}
-		}
+		obs = append(obs, c15Render(who, s)...)
 	}
 	return obs
 }
 
+func c15Render(who string, s c15Snap) Fields {
+	if !s.ok {
+		return F(who, "MISSING")
+	}
+	obs := F(who, s.scal[0], s.scal[1], s.scal[2], s.scal[3], s.scal[4], s.scal[5], len(s.args), s.args)
+	if s.nil_ {
+		return append(obs, F("nil")...)
+	}
+	keys := make([]string, 0, len(s.tags))
+	for k := range s.tags {
+		keys = append(keys, k)
+	}
+	sort.Strings(keys)
+	obs = append(obs, F(len(keys))...)
+	for _, k := range keys {
+		obs = append(obs, F(k, s.tags[k])...)
+	}
+	return obs
+}
+
+// "later invocation" modes: ONE handler registration is invoked for two successive events of the same
+// verb (field 0 = first line, field 7 = second line).
+//
+//	laterbg: background handler; the invocation for event 1 records its entry snapshot (a0) and parks;
+//	         the invocation for event 2 records (b), scribbles over ITS line and releases the first one,
+//	         which records what its own line looks like now (a1).
+//	laterfg: foreground handler that KEEPS its *Line after returning; after event 2 was dispatched
+//	         (and its invocation has scribbled) the kept line is read again (a1).
+//
+// a0 and a1 must both be ParseLine(line 1), b must be ParseLine(line 2).
+func c15ExecLater(in Fields) Fields {
+	line1, verb, mode, line2 := in.S(0), in.S(1), in.S(5), in.S(7)
+	if in.S(6) == "1" {
+		defer runtime.GOMAXPROCS(runtime.GOMAXPROCS(1))
+	}
+	c := c15ws.Conn
+	var mu sync.Mutex
+	var a0, a1, b c15Snap
+	var kept *client.Line
+	entered := make(chan struct{})    // invocation 1 has recorded its entry snapshot
+	secondDone := make(chan struct{}) // invocation 2 has finished scribbling
+	firstDone := make(chan struct{})  // invocation 1 has recorded its second look
+	var once1, once2 sync.Once
+	h := client.HandlerFunc(func(_ *client.Conn, l *client.Line) {
+		switch l.Raw {
+		case line1:
+			once1.Do(func() {
+				s := c15Take(l)
+				mu.Lock()
+				a0, kept = s, l
+				mu.Unlock()
+				close(entered)
+				if mode == "laterbg" {
+					select {
+					case <-secondDone:
+					case <-time.After(2 * time.Second):
+					}
+					s = c15Take(l)
+					mu.Lock()
+					a1 = s
+					mu.Unlock()
+					close(firstDone)
+				}
+			})
+		case line2:
+			once2.Do(func() {
+				s := c15Take(l)
+				c15ScribbleAll(l)
+				mu.Lock()
+				b = s
+				mu.Unlock()
+				close(secondDone)
+			})
+		}
+	})
+	var rm client.Remover
+	if mode == "laterbg" {
+		rm = c.HandleBG(verb, h)
+	} else {
+		rm = c.HandleFunc(verb, h)
+	}
+	st := &c04State{ws: c15ws}
+	send := func(l string) {
+		c15serial++
+		c15ws.Srv.Write([]byte(l + "\r\n" + fmt.Sprintf("PING :c15m%d\r\n", c15serial)))
+		st.waitWire(fmt.Sprintf("PONG :c15m%d\r\n", c15serial), 5*time.Second)
+	}
+	wait := func(ch chan struct{}) {
+		select {
+		case <-ch:
+		case <-time.After(2 * time.Second):
+		}
+	}
+	send(line1)
+	wait(entered)
+	send(line2)
+	wait(secondDone)
+	if mode == "laterbg" {
+		wait(firstDone)
+	} else {
+		mu.Lock()
+		k := kept
+		mu.Unlock()
+		if k != nil {
+			s := c15Take(k) // the line the first invocation kept
+			mu.Lock()
+			a1 = s
+			mu.Unlock()
+		}
+	}
+	rm.Remove()
+	mu.Lock()
+	defer mu.Unlock()
+	return append(append(c15Render("a0", a0), c15Render("a1", a1)...), c15Render("b", b)...)
+}
+
 func c15Word(r *Rand) string {
 	return string(r.Bytes(r.Range(1, 8), []byte("abcdefghXYZ0123456789#&+-_")))
+}
+
+// one line: tag section (tags: -1 none, 0 an EMPTY section, n > 0 that many tags), optional source,
+// verb, nargs arguments (the last one possibly a trailing " :" argument)
+func c15Line(r *Rand, verb string, tags, nargs int) string {
+	var b strings.Builder
+	if tags >= 0 {
+		b.WriteString("@")
+		for j := 0; j < tags; j++ {
+			if j > 0 {
+				b.WriteString(";")
+			}
+			b.WriteString(fmt.Sprintf("t%d", r.Intn(6)))
+			switch r.Intn(4) {
+			case 0: // key only
+			case 1:
+				b.WriteString("=")
+			case 2:
+				b.WriteString("=va\\sl\\:ue\\\\")
+			default:
+				b.WriteString("=" + c15Word(r))
+			}
+		}
+		if tags == 0 {
+			b.WriteString(r.Pick([]string{"", ";", ";;"})) // present but empty: a non-nil EMPTY map
+		}
+		b.WriteString(" ")
+	}
+	switch r.Intn(3) {
+	case 0:
+		b.WriteString(":nick!ident@host.example ")
+	case 1:
+		b.WriteString(":irc.server.example ")
+	}
+	b.WriteString(verb)
+	trailing := nargs > 0 && r.Chance(60)
+	for j := 0; j < nargs; j++ {
+		if trailing && j == nargs-1 {
+			b.WriteString(" :" + c15Word(r) + " " + c15Word(r) + " :x")
+		} else {
+			b.WriteString(" " + c15Word(r))
+		}
+	}
+	return b.String()
 }
 
 func c15Gen(r *Rand, tier string, scale int, emit func(Fields)) {
@@ -284,57 +431,51 @@ func c15Gen(r *Rand, tier string, scale int, emit func(Fields)) {
 	}
 	verbs := []string{"ZOT", "zot", "PRIVMSG", "NOTICE", "123", "Quux"}
 	for i := 0; i < scale; i++ {
-		var b strings.Builder
-		if r.Chance(50) {
-			b.WriteString("@")
-			nt := r.Range(0, 4)
-			for j := 0; j < nt; j++ {
-				if j > 0 {
-					b.WriteString(";")
-				}
-				b.WriteString(fmt.Sprintf("t%d", r.Intn(6)))
-				switch r.Intn(4) {
-				case 0: // key only
-				case 1:
-					b.WriteString("=")
-				case 2:
-					b.WriteString("=va\\sl\\:ue\\\\")
-				default:
-					b.WriteString("=" + c15Word(r))
-				}
-			}
-			if nt == 0 {
-				b.WriteString("only")
-			}
-			b.WriteString(" ")
-		}
-		switch r.Intn(3) {
-		case 0:
-			b.WriteString(":nick!ident@host.example ")
-		case 1:
-			b.WriteString(":irc.server.example ")
-		}
 		verb := fmt.Sprintf("%s%d", r.Pick(verbs), i) // a verb of its own for every case of the run
-		b.WriteString(verb)
-		nargs := i % 16 // 0..15 in turn
-		trailing := nargs > 0 && r.Chance(60)
-		for j := 0; j < nargs; j++ {
-			if trailing && j == nargs-1 {
-				b.WriteString(" :" + c15Word(r) + " " + c15Word(r) + " :x")
-			} else {
-				b.WriteString(" " + c15Word(r))
-			}
+		tags := -1
+		if r.Chance(50) {
+			tags = r.Range(0, 4)
 		}
-		// in EVERY run: the set-size combinations in which one set has a lone handler
-		// {fg:1,bg:1} (both roles), {fg:1,bg:>=2}, {fg:>=2,bg:1}, {fg:1,bg:0}, {fg:0,bg:1}, each with
-		// and without GOMAXPROCS(1); the remaining cases run free
-		if i < 72 {
+		nargs := i % 16 // 0..15 in turn
+		switch {
+		case i < 72:
+			// in EVERY run: the set-size combinations in which one set has a lone handler
+			// {fg:1,bg:1} (both roles), {fg:1,bg:>=2}, {fg:>=2,bg:1}, {fg:1,bg:0}, {fg:0,bg:1}, each with
+			// and without GOMAXPROCS(1)
 			combos := [][3]interface{}{{"lonefg", 1, 1}, {"lonebg", 1, 1}, {"lonefg", 1, r.Range(2, 5)},
 				{"lonebg", r.Range(2, 5), 1}, {"lonefg", 1, 0}, {"lonebg", 0, 1}}
 			cb := combos[i%6]
-			emit(F(b.String(), verb, cb[1].(int), cb[2].(int), r.Intn(1000000), cb[0].(string), (i/6)%2))
-			continue
+			emit(F(c15Line(r, verb, tags, nargs), verb, cb[1].(int), cb[2].(int), r.Intn(1000000), cb[0].(string), (i/6)%2, ""))
+		case i < 96:
+			// an EMPTY tag section; handler 0 ADDS tags, every other handler (both sets) looks afterwards
+			nfg, nbg := r.Range(0, 4), r.Range(0, 4)
+			if nfg+nbg < 2 {
+				nfg, nbg = 1, 1
+			}
+			emit(F(c15Line(r, verb, 0, nargs), verb, nfg, nbg, r.Intn(1000000), "first", i%2, ""))
+		case i < 132:
+			// the same registration invoked for two successive events of the verb
+			n1 := r.Range(0, 15)
+			n2 := r.Range(0, 15)
+			if i%3 == 0 && n2 > n1 {
+				n1, n2 = n2, n1 // the second line fits into the storage of the first
+			}
+			t2 := -1
+			if r.Bool() {
+				t2 = r.Range(0, 3)
+			}
+			mode := "laterbg"
+			if i%2 == 1 {
+				mode = "laterfg"
+			}
+			l1 := c15Line(r, verb, tags, n1)
+			l2 := c15Line(r, verb, t2, n2)
+			if l1 == l2 {
+				l2 += " differs"
+			}
+			emit(F(l1, verb, 1, 0, r.Intn(1000000), mode, (i/2)%2, l2))
+		default:
+			emit(F(c15Line(r, verb, tags, nargs), verb, r.Range(1, 6), r.Range(1, 6), r.Intn(1000000), "", 0, ""))
 		}
-		emit(F(b.String(), verb, r.Range(1, 6), r.Range(1, 6), r.Intn(1000000), "", 0))
 	}
 }
